@@ -8,6 +8,7 @@ from __future__ import annotations
 import numbers
 
 from ..spec import build, B, I, T, H, R, M
+from ..space import Const, Prod
 
 ID = "C14"
 LEVEL = "model_checking"
@@ -66,6 +67,9 @@ def mk_ops(valid, invalid, full):
         ops.append(["extend", a])
     ops.append(["extend", ["GEN", [T("g"), ["N", 4], ["PY", [["NONE"], T("h")]]]]])
     ops.append(["extend", ["GEN", [T("g"), ["OBJ"]]]])
+    # a lazy iterable that BUILDS tags (with children of their own) while it is being consumed
+    ops.append(["extend", ["GEN", [I([T("ga")]), I([T("gb"), I([T("gc")])]), T("gt")]]])
+    ops.append(["iadd", ["GEN", [I([T("ia")]), I([T("ib")])]]])
     for a in operands:
         ops.append(["add", a])
         ops.append(["iadd", a])
@@ -462,7 +466,80 @@ def same_list(real, model):
     return True
 
 
+_FLAG_SCRIPT = r'''
+import sys
+sys.path.insert(0, sys.argv[1])
+import decimal, fractions
+from htmltools import Tag, TagList
+kind, op = sys.argv[2], sys.argv[3]
+bad = {"object": object(), "dict": {"a": 1}, "set": {1}, "bytes": b"x", "decimal": decimal.Decimal("1.5"),
+       "fraction": fractions.Fraction(1, 2), "complex": 1j, "nested": ["ok", ("k", [object()])]}[kind]
+tl = TagList("a", Tag("b", "k"))
+tag = Tag("div", "a")
+before = (list(tl), list(tag.children))
+try:
+    if op == "TagList()":
+        TagList("x", bad)
+    elif op == "Tag()":
+        Tag("div", "x", [bad]) if kind == "dict" else Tag("div", "x", bad)
+    elif op == "append":
+        tl.append("ok", bad)
+    elif op == "extend":
+        tl.extend(["ok", bad])
+    elif op == "insert":
+        tl.insert(1, [bad])
+    elif op == "+":
+        tl + ["ok", bad]
+    elif op == "r+":
+        ["ok", bad] + tl
+    elif op == "+=":
+        tl += ["ok", bad]
+    elif op == "Tag.append":
+        tag.append("ok", bad)
+    elif op == "Tag.extend":
+        tag.extend(["ok", bad])
+    elif op == "Tag.insert":
+        tag.insert(0, [bad])
+    elif op == "with-block":
+        with tag:
+            sys.displayhook(bad if kind != "nested" else object())
+    print("accepted")
+except TypeError:
+    print("TypeError" if (list(tl), list(tag.children)) == before else "TypeError-but-changed")
+'''
+FLAG_SETS = [[], ["-O"], ["-OO"], ["-X", "dev"], ["-E", "-s"]]
+FLAG_KINDS = ["object", "dict", "set", "bytes", "decimal", "fraction", "complex", "nested"]
+FLAG_OPS = ["TagList()", "Tag()", "append", "extend", "insert", "+", "r+", "+=", "Tag.append", "Tag.extend", "Tag.insert",
+            "with-block"]
+
+
+def fn_flags(case):
+    """the same rejections in interpreters started with -O / -OO / -X dev: an unsupported child raises TypeError and
+    leaves the list unchanged whatever the interpreter flags (one fresh process per case)."""
+    import os
+    import subprocess
+    from .. import REPO
+    flags, kind, op = case
+    env = dict(os.environ, PYTHONDONTWRITEBYTECODE="1")
+    p = subprocess.run(["/venv/bin/python", *flags, "-c", _FLAG_SCRIPT, REPO, kind, op], capture_output=True, text=True,
+                       env=env, timeout=120)
+    out = p.stdout.strip().splitlines()[-1] if p.stdout.strip() else "crash: " + p.stderr[-300:]
+    viols = []
+    if out != "TypeError":
+        viols.append((f"interpreter-flags:{' '.join(flags) or 'none'}:{op}", f"unsupported child ({kind}) through {op} under "
+                      f"python {' '.join(flags)}: {out}", {}))
+    return (bool(flags), out, viols, 1)
+
+
 def plan(tier):
+    return plan0(tier) + [dict(kind="space", name="interpreter-flags", fn=fn_flags,
+                               space=Prod(Const(FLAG_SETS), Const(FLAG_KINDS if tier != "quick" else FLAG_KINDS[:4] + ["nested"]),
+                                          Const(FLAG_OPS)),
+                               note="one fresh interpreter per case, started with no flag / -O / -OO / -X dev / -E -s: "
+                                    "every mutator rejects every unsupported value with TypeError, list unchanged")]
+
+
+def plan0(tier):
     step = make_step()
     full_inits = inits(VALID_ARGS, INVALID_ARGS)
     red_inits = inits(RED_VALID, RED_INVALID)
